@@ -57,6 +57,10 @@ CHECKS = {
     technique='relational SMT queries: per-line summary invariance under swapping the two copies of an input form (one query R(x,o1) and R(pi x,o2) and o1 != o2 per line, inductive along the read graph); two renamed copies of the whole-return model differing in one input for the monotonicity / exact-response claims',
     text='(a) For K=2 copies of each input form (W-2, 1099-INT/DIV/R/G, 1098) and every line that reads a numbered copy, z3 shows that no values make the line differ when copies 0 and 1 are swapped (per-payer listing lines exempt); with an acyclic read graph the whole return is then invariant. (b) Wages up => total tax not lower, deduction up => not higher, withholding + d => refund-minus-owed + d are posed as relational queries on two copies of the whole-return model (both solved, figure_tax = the schedule term C07 verifies) under a time cap; queries that time out are reported INCONCLUSIVE and named in the evidence, never counted as discharged. Witnesses are replayed as two real solves.',
     design='4 C16', note=TB + '; lines with more than 300 paths (NC withholding lines at K=2) and timed-out relational queries are inconclusive'),
+ 'C02': dict(
+    technique='SMT queries over a whole-return model composed from path-exhaustive symbolic summaries of the real line definitions: solved and |line - official instruction(other lines)| > tolerance must be unsat; instructions parsed by a grammar from the accessibility text of the bundled IRS templates (re-extracted each run)',
+    text='The per-line instruction (Add lines a through b / a, b and c; Subtract line a from line b [floor at 0]; Multiply line a by r% (0.0r) or by $c; Enter the smaller/larger of ...; smaller of line a or $c ($d if MFS); Enter the amount from line a / from Schedule X, line n / from Form 1040, line n) is parsed out of the XFA text of every mapped numeric line of every IRS template of 2021-2023 (80-94 instructions per year; unparsed text leaves the line uncovered and counted). For each, z3 is asked for a solved return (symbolic filing status, K copies, whole cents) in which the stored line differs by more than half a cent + eps from the instruction applied to the other stored lines (blank = 0); unsat = equal for every input inside the bound. Witnesses are replayed on the real Solver with an independent evaluation of the instruction.',
+    design='4 C02', note=TB + '; oracle/instruction_overrides.json (reviewed transcriptions / exclusions); worksheets and NC forms have no machine-readable text and are not covered'),
  'C07': dict(
     technique='bounded symbolic execution of the real figure_tax on a symbolic real income (proxy objects through the real bytecode, z3 decides path feasibility) + per-path SMT equivalence with the statutory rate schedule',
     text='Every path of the real figure_tax/figure_tax_table/figure_tax_worksheet (one per table row and worksheet row, for each year and each of the 5 statuses) is enumerated by the symbolic executor; for each, z3 proves value(x) == schedule(x) for every real x on that path (unsat of the negation), that no feasible x falls through, and monotonicity across adjacent pieces. Holds for all real x in [0,1e12]; float rounding of the worksheet kernel is bounded by an NRA lemma under the IEEE standard model. Witnesses are replayed on the uninstrumented code before being reported.',
